@@ -13,6 +13,10 @@
 (*   "unsigned"  references, but no rad/sigrefs branch -- such a namespace *)
 (*               is not a "remote" (`remote_ids` enumerates sigrefs)       *)
 (*   "signed"    references and a rad/sigrefs branch that verifies         *)
+(*   "signed2"   as "signed", plus a further reference whose name ends in  *)
+(*               /rad/sigrefs (a branch called rad/sigrefs): the glob that *)
+(*               `remote_ids` enumerates matches both, so the peer is      *)
+(*               yielded TWICE                                             *)
 (*   "corrupt"   a rad/sigrefs branch that does not load / verify          *)
 (* and the delegate set of the repository's identity document, read from   *)
 (* the canonical refs/rad/id (which is not inside any namespace).  That    *)
@@ -37,7 +41,9 @@
 (* repository when the local sigrefs fail to load instead of being absent, *)
 (* "emptyset" carries on with an EMPTY delegate set when the identity      *)
 (* document fails to load (log and continue instead of returning the       *)
-(* error): all three must be rejected by TLC (sanity configs).             *)
+(* error), "firstonly" protects a delegate only the first time           *)
+(* `remote_ids` yields it: all four must be rejected by TLC (sanity        *)
+(* configs).                                                               *)
 (***************************************************************************)
 EXTENDS Integers, Sequences, FiniteSets, TLC
 
@@ -47,22 +53,23 @@ CONSTANTS Node,        \* peers
           NsStates,    \* [Node -> set of namespace states allowed initially]
           IdStates,    \* set of initial values of iddoc
           MaxOps,      \* behaviours have at most this many actions
-          Variant      \* "code" | "and" | "loadfail" | "emptyset"
+          Variant      \* "code" | "and" | "loadfail" | "emptyset" | "firstonly"
 
 VARIABLES exists,      \* the repository exists in storage
-          ns,          \* [Node -> "absent" | "unsigned" | "signed" | "corrupt"]
+          ns,          \* [Node -> "absent" | "unsigned" | "signed" | "signed2" | "corrupt"]
           delegates,   \* delegate set of the last readable identity document (does not change here)
           iddoc,       \* does the document at refs/rad/id load: "ok" | "missing" | "unsupported"
           last,        \* ghost: the last action with its pre-state and result
           hist         \* ghost: actions so far with the state after each (for replay)
 vars == <<exists, ns, delegates, iddoc, last, hist>>
 
-HasSigrefs(s) == s \in {"signed", "corrupt"}
+HasSigrefs(s) == s \in {"signed", "signed2", "corrupt"}
+Verifies(s) == s \in {"signed", "signed2"}
 Remotes(f) == {n \in Node : HasSigrefs(f[n])}       \* `Repository::remote_ids`
 AllAbsent == [n \in Node |-> "absent"]
 
 Init == /\ exists = TRUE
-        /\ ns \in {f \in [Node -> {"absent", "unsigned", "signed", "corrupt"}] : \A n \in Node : f[n] \in NsStates[n]}
+        /\ ns \in {f \in [Node -> {"absent", "unsigned", "signed", "signed2", "corrupt"}] : \A n \in Node : f[n] \in NsStates[n]}
         /\ delegates \in Delegates
         /\ iddoc \in IdStates
         /\ last = [op |-> "init", pre |-> AllAbsent, res |-> "ok", ret |-> {}]
@@ -79,6 +86,9 @@ SeenDelegates == IF iddoc = "ok" THEN delegates ELSE {}
 Protected(n) == IF Variant = "and" THEN n = Local /\ n \in SeenDelegates
                 ELSE n = Local \/ n \in SeenDelegates
 Cleaned == {n \in Remotes(ns) : ~Protected(n)}
+             \cup (IF Variant = "firstonly"
+                   THEN {n \in Remotes(ns) : n # Local /\ n \in SeenDelegates /\ ns[n] = "signed2"}
+                   ELSE {})
 
 \* `Storage::clean(rid)`:
 \*   has_sigrefs = SignedRefsAt::load(local, repo)?.is_some()      (a load error is returned)
@@ -92,12 +102,12 @@ Clean ==
             /\ UNCHANGED <<exists, ns>>
             /\ last' = [op |-> "clean", pre |-> ns, res |-> "err", ret |-> {}]
             /\ Record("clean", Local, "err", {}, exists, ns)
-       ELSE IF ns[Local] = "signed" /\ iddoc # "ok" /\ Variant # "emptyset"
+       ELSE IF Verifies(ns[Local]) /\ iddoc # "ok" /\ Variant # "emptyset"
        THEN \* the delegates cannot be determined: error, nothing is touched
             /\ UNCHANGED <<exists, ns>>
             /\ last' = [op |-> "clean", pre |-> ns, res |-> "err", ret |-> {}]
             /\ Record("clean", Local, "err", {}, exists, ns)
-       ELSE IF ns[Local] = "signed"
+       ELSE IF Verifies(ns[Local])
        THEN /\ ns' = [n \in Node |-> IF n \in Cleaned THEN "absent" ELSE ns[n]]
             /\ UNCHANGED exists
             /\ last' = [op |-> "clean", pre |-> ns, res |-> "ok", ret |-> Cleaned]
